@@ -14,7 +14,7 @@ from vk.refserver import RefServer, VClock
 
 PROPERTY = "C19"
 LEVEL = "exploration"
-RULE = ("node lists of 1..6 nodes over a universe of 6 (distinct host names, IPs and ports) x use_vpc on/off x all sequences of "
+RULE = ("node lists of 1..6 nodes over a universe of 6 (distinct host names, IPs and ports; plus a second port on one host/IP and a node replaced under its old name) x use_vpc on/off (bool or int) x all sequences of "
         "reconfigurations (scale-up, scale-down, replace, reorder) up to length 2 (thorough 3) over a pool of 11 lists (sizes 1..6), sampled "
         "beyond x reply segmentations (whole, every single cut of the config reply, single bytes, cuts inside the 7-byte end "
         "token) x traffic between reconfigurations, a failing node before a reconfiguration, pooling on/off; endpoint answering "
@@ -30,6 +30,12 @@ SHARDS = {"quick": 16, "thorough": 16}
 TIMEOUT = {"quick": 900, "thorough": 7200}
 
 UNIVERSE = [("node%d.abc.use1.cache.amazonaws.com" % i, "10.9.0.%d" % (10 + i), 11211 + i) for i in range(6)]
+# 6: a second node on node 0's host and IP, another port (two memcached processes on one machine)
+# 7: node 1 replaced - same host name and port, new machine (new IP); DNS follows whichever of 1 / 7 is advertised
+UNIVERSE.append((UNIVERSE[0][0], UNIVERSE[0][1], 11311))
+UNIVERSE.append((UNIVERSE[1][0], "10.9.0.77", UNIVERSE[1][2]))
+SPECIAL_SEQS = [((0, 6),), ((0, 6, 2), (6, 2)), ((6,), (0, 6)), ((0, 6), (0,)), ((1, 2), (7, 2)), ((0, 1), (0, 7), (0, 1)), ((1,), (7,)),
+                ((7, 6, 3), (1, 0))]
 LISTS = [(0,), (0, 1), (0, 1, 2), (1, 2), (2,), (3, 4, 5), (0, 1, 2, 3, 4, 5), (5, 0), (1, 0), (0, 2, 3, 5), (4, 3, 2, 1, 0)]
 CFG = "mycluster.abc.cfg.use1.cache.amazonaws.com"
 CORPUS = ["key-%d" % i for i in range(400)]
@@ -44,14 +50,20 @@ class World:
         self.cfg_srv = self.net.add_server(CFG, 11211, RefServer(self.clock, name="cfg"), ips=["10.9.9.9"])
         self.nodes = {}
         for host, ip, port in UNIVERSE:
-            srv = RefServer(self.clock, name=host)
+            srv = RefServer(self.clock, name="%s(%s:%d)" % (host, ip, port))
+            keep = self.net.dns.get((host, port))
             self.net.add_server(host, port, srv, ips=[ip])
+            if keep is not None:
+                self.net.dns[(host, port)] = keep         # the name keeps pointing at the original machine until advertised otherwise
             self.nodes[(host, ip, port)] = srv
         self.version = 7          # configuration versions cross 9 -> 10 within a scenario
 
     def advertise(self, idxs):
         self.version += 1
         self.cfg_srv.cluster_config = (self.version, [UNIVERSE[i] for i in idxs])
+        for i in idxs:
+            host, ip, port = UNIVERSE[i]
+            self.net.dns[(host, port)] = [(self.net.AF_INET, (ip, port))]      # DNS follows the advertised machine
 
 
 def route_and_check(res, w, client, adv, use_vpc, v, label):
@@ -136,7 +148,9 @@ def scenario(res, seq, use_vpc, segspec, pooling, failing, label=""):
         w.advertise(seq[0])
         w.net.begin_call("ctor")
         try:
-            client = AWSElastiCacheHashClient("%s:11211" % CFG, socket_module=w.net, use_vpc=use_vpc, use_pooling=pooling,
+            # the flag as a bool or as the equivalent int (configuration files, environment variables)
+            vpc_arg = (int(use_vpc) if (len(seq) + len(seq[0]) + int(pooling)) % 2 else use_vpc)
+            client = AWSElastiCacheHashClient("%s:11211" % CFG, socket_module=w.net, use_vpc=vpc_arg, use_pooling=pooling,
                                               retry_attempts=1, retry_timeout=10, dead_timeout=100, default_noreply=False)
         except Exception as e:
             v("constructor-raises:%s" % type(e).__name__, "constructor with advertised %r, seg %r raised %r" % (seq[0], segspec[0], e))
@@ -267,6 +281,9 @@ def shard(tier, seed, idx, n):
             seqs.append(tuple(LISTS[i] for i in s))
     if tier == "quick":
         seqs = [s for s in seqs if len(s) <= 2] + rng.sample([s for s in seqs if len(s) == 3], 60)
+    # shared host/IP with different ports, and a node replaced under its old name; each several times (the per-sequence
+    # options below vary with the position in the list)
+    seqs = list(seqs) + SPECIAL_SEQS * 6
     work = 0
     for seq in seqs:
         for use_vpc in (True, False):
